@@ -431,13 +431,38 @@ def directed(tier):
     D = []
     rev = list(range(9, -1, -1))
     std = [[n, PINNED_FEED.get(n, 0)] for n in PINNED_ORDER]
-    # witness of the discarded success flag: pinned network, 300 K, 100 atm ends with status 8
+    # witness of the discarded success flag named by the design: pinned network, 300 K, 100 atm ends
+    # with status 8 (multi-threaded OpenBLAS; see the note at the two random witnesses below)
     D.append({'network': 'pinned', 'api': 'from_thermdat', 'names': PINNED_ORDER, 'feed': std,
               'points': [[300.0, 100.0]], 'perm': rev})
     for T in (300.0, 350.0, 450.0, 501.0, 650.0, 800.0, 1000.0, 1250.0, 1500.0):
         D.append({'network': 'pinned', 'api': 'from_thermdat', 'names': PINNED_ORDER, 'feed': std,
                   'points': [[T, 0.01], [T, 1.0]] + ([[T, 100.0]] if T != 300.0 else []),
                   'perm': rev if int(T) % 100 else [3, 7, 1, 9, 0, 5, 2, 8, 6, 4]})
+    # robust witnesses of the same defect (status 8 with single- and multi-threaded BLAS alike, unlike
+    # the pinned point above, which converges when OpenBLAS runs single-threaded as in the shard workers)
+    D.append({"network": "random", "api": "model_dict", "species": [
+        {"name": "SP0", "elements": {"H": 3}, "T_low": 300.0, "T_mid": 1070.62, "T_high": 5000.0,
+         "a_low": [9.84543355, 0.0020892072, -5.03589267e-08, -8.29009071e-12, -7.96267303e-16, 3651.34339, 28.2891327],
+         "a_high": [3.66955026, -0.000344620631, -6.64302054e-08, -7.61689278e-12, -6.57421723e-16, 11664.5413, 73.986647]},
+        {"name": "C6", "elements": {"C": 6}, "T_low": 200.0, "T_mid": 669.1, "T_high": 2500.0,
+         "a_low": [11.3703842, 0.00253429762, -4.18100441e-08, -1.03268317e-12, 9.45012709e-16, -24666.4844, 2.95141122],
+         "a_high": [3.00285961, 0.00243808644, -7.89826748e-08, 1.4945259e-12, 4.23002991e-16, -19042.638, 57.4624398]},
+        {"name": "H1C8", "elements": {"H": 1, "C": 8}, "T_low": 298.15, "T_mid": 1276.31, "T_high": 3000.0,
+         "a_low": [7.0913002, 0.00230813365, 9.90785879e-08, -9.06593561e-12, 2.83502619e-16, -65821.852, 1.55531489],
+         "a_high": [8.14499116, 0.00224731999, -4.87070335e-08, 6.32711012e-12, 6.85273171e-16, -67025.2215, -5.79334488]}],
+        "feed": [["SP0", 1], ["C6", 0], ["H1C8", 1.537]], "points": [[1619.8, 0.09809]], "perm": [2, 0, 1]})
+    D.append({"network": "random", "api": "model_list", "species": [
+        {"name": "SP0", "elements": {"S": 3, "He": 1}, "T_low": 300.0, "T_mid": 688.65, "T_high": 2500.0,
+         "a_low": [7.31288593, 0.000966579204, 3.26460849e-08, -2.6718035e-12, 9.68650019e-16, -2401.87603, -8.48743437],
+         "a_high": [8.43246745, 0.00190271365, 9.99791025e-09, -6.55175164e-12, -1.28070244e-16, -3392.13386, -16.4424155]},
+        {"name": "He2", "elements": {"S": 0, "He": 2}, "T_low": 200.0, "T_mid": 1426.19, "T_high": 3000.0,
+         "a_low": [7.9115985, 0.00234543264, -2.60277628e-09, 3.13843963e-12, -4.59255093e-16, 6731.91605, 16.9659196],
+         "a_high": [7.00028617, 0.000576688461, -4.48742379e-09, -6.50455507e-13, 1.17186164e-16, 9835.51027, 26.1121134]},
+        {"name": "SP2", "elements": {"S": 2, "He": 0}, "T_low": 200.0, "T_mid": 683.79, "T_high": 2500.0,
+         "a_low": [10.136927, -0.000896410007, -6.32573533e-08, 3.21712161e-12, 3.78912492e-16, 12720.1909, 25.4696046],
+         "a_high": [3.28238281, -5.17469743e-05, -2.31063231e-08, -8.73269606e-12, -1.6582776e-16, 17206.181, 69.6280203]}],
+        "feed": [["SP0", 6.718], ["He2", 0.0], ["SP2", 0.0]], "points": [[539.1, 100.0]], "perm": [2, 0, 1]})
     # the unit-test point, nudged off the T_mid of CH4 / propene
     D.append({'network': 'pinned', 'api': 'from_thermdat', 'names': PINNED_ORDER, 'feed': std,
               'points': [[499.0, 1.0]], 'perm': rev})
@@ -531,6 +556,43 @@ def install_probes(pr, ctx):
     pr.watch(rt, 'read_thermdat')
 
 
+# ------------------------------------------------------------------ determinism
+_BLAS = {'done': False}
+
+
+def _pin_blas_threads():
+    """SLSQP's path through a badly scaled problem depends on the last bits of small dot products,
+    and those depend on whether OpenBLAS runs single-threaded.  The shard workers run with
+    OPENBLAS_NUM_THREADS=1; `check.py --replay` does not set it, so the same state is forced here
+    at run time (best effort, via the libraries numpy/scipy have loaded), otherwise a replay may
+    end with a different solver status than the run that produced it."""
+    if _BLAS['done']:
+        return
+    _BLAS['done'] = True
+    if os.environ.get('OPENBLAS_NUM_THREADS') == '1':
+        return
+    try:
+        import ctypes
+        import numpy            # noqa  (make sure the libraries are mapped)
+        import scipy.optimize   # noqa
+        libs = set()
+        with open('/proc/self/maps') as f:
+            for ln in f:
+                path = ln.rsplit(' ', 1)[-1].strip()
+                if 'openblas' in os.path.basename(path).lower():
+                    libs.add(path)
+        for path in libs:
+            lib = ctypes.CDLL(path)
+            for sym in ('scipy_openblas_set_num_threads64_', 'scipy_openblas_set_num_threads',
+                        'openblas_set_num_threads64_', 'openblas_set_num_threads'):
+                fn = getattr(lib, sym, None)
+                if fn is not None:
+                    fn(ctypes.c_int(1))
+                    break
+    except Exception:           # noqa
+        pass
+
+
 # ------------------------------------------------------------------ driver
 def _species_of(spec, ctx):
     """-> (species list in network order, thermdat path or None)"""
@@ -605,6 +667,7 @@ def _bump(ctx, key, val):
 def run_case(spec, ctx):
     import numpy as np
     from vf.ref import gibbs
+    _pin_blas_threads()
     ctx.extra.setdefault('status_histogram', {})
     species, path = _species_of(spec, ctx)
     ns = len(species)
